@@ -156,4 +156,36 @@ theorem safe_dfrArgs {t : List FieldWrite} (h : FieldWritesSafe t) : (Writes.ofT
   simp only [Bool.and_eq_true] at hd
   simp [hd.1.1] at this
 
+/-! ### the serializer reads the value only (family sercalls: serialization/serializer.go)
+
+The fields of every value struct are unexported: package `serialization` can change a value only through a method it
+calls on it, or by writing through storage an accessor handed out.  `SerFactsSafe`: every method the serializer invokes is
+a reviewed one — read-only methods of values and types, the emitting methods of the consumer (its OUTPUT), the serializer's
+own — and every assignment goes to the serializer's own state (`sc.values[value] = pos`: the memo table keyed by identity;
+`sc.refIndex`, `sc.path`), to a plain local, or into storage the function created itself. -/
+
+def reviewedSerCalls : List String := [
+  -- read-only methods of values, types and attributes
+  "AllKeysAreStrings", "Attributes", "AttributesInfo", "Bool", "CanSerializeAsString", "Default", "EachPair", "EachWithIndex",
+  "Get", "Get5", "InitHash", "Int", "Interface", "Len", "MetaType", "Name", "PType", "RequiredCount", "SerializationString",
+  "String", "ToString", "Unwrap",
+  -- the consumer: what the serializer emits into, and what it asks it
+  "Add", "AddArray", "AddHash", "AddRef", "CanDoBinary", "CanDoComplexKeys", "StringDedupThreshold",
+  -- a bytes.Buffer of its own (the path text of a warning)
+  "WriteByte", "WriteString",
+  -- the serializer's own methods
+  "addArray", "addData", "addHash", "isKnownType", "nonStringKeyedHashToData", "pathToString", "pcoreTypeToData", "process",
+  "toData", "toKeyExtendedHash", "unknownToStringWithWarning", "valueToDataHash", "withPath"]
+
+def reviewedSerTargets : List String :=
+  ["local", "fresh-through", "recv.values", "recv.refIndex", "recv.path"]
+
+def serFactsSafeB (calls : List String) (writes : List (String × String)) : Bool :=
+  calls.all (fun c => reviewedSerCalls.contains c) && writes.all (fun w => reviewedSerTargets.contains w.2)
+
+def SerFactsSafe (calls : List String) (writes : List (String × String)) : Prop := serFactsSafeB calls writes = true
+
+instance (calls : List String) (writes : List (String × String)) : Decidable (SerFactsSafe calls writes) := by
+  unfold SerFactsSafe; infer_instance
+
 end Pcore.Immut
